@@ -116,523 +116,548 @@ float{
     uint32
 crc, charz msg_type , u128 crc , string stringy
 `" ++ [233]%N ++ runes_of_ascii "`, }")).
-Eval vm_compute in ("<<<M53>>>" ++ check (runes_of_ascii "root
-packet u {
-    char[007 ]x_y_z
-`two words` , int16 u8x
-    @calculatedFrom( ""packet""
-    )
-    // @lengthOf(
-    ,
-    float64
-    falsey
-@calculatedFrom( ""\" ++ [233]%N ++ runes_of_ascii """ ) `u8 x,`
-    ,
-    trueish @calculatedFrom(
-    """ ++ [233]%N ++ runes_of_ascii "t" ++ [233]%N ++ runes_of_ascii """ )
-`tab	here` , @tag( 1	) repeat char[
-4294967296 ]
-    // " ++ [128512]%N ++ runes_of_ascii " emoji
-    u , match
-    // " ++ [27880; 37322]%N ++ runes_of_ascii "
-    i8i8
-    //
-    as // " ++ [128512]%N ++ runes_of_ascii " emoji
-o
-    { [""a\\""
-    ]:
-    matchKey,[ 0123456789
-    //x
-    , ""x y""  , 0 ,
-/// triple
-/// triple
-00 , ""a	b"" ,""{,}"" , // a // b
-""{,}"" ,
-007 ] :
-u8x,
-255 : u128 , [
-""" ++ [28040; 24687]%N ++ runes_of_ascii """
-    , 0123456789	,65535 ,
-    // a // b
-    ""\n"" ] : _x, 7 :
-falsey} , @leftPad ( )// " ++ [128512]%N ++ runes_of_ascii " emoji
-charz @lengthOf(A ) , // `tick` ""quote"" 'q'
-} root packet stringy
+Eval vm_compute in ("<<<M257>>>" ++ check (runes_of_ascii "options
 {
-    repeat
-    MetaDataX {float32
-T , string
-    x_y_z `a\`
-, repeat	_x  zchar`u8 x,` , }
-    , } packet Foo {
-    @lengthOf(  roots
-    ) calculatedFrom a1, zchar[ 0123456789]	_x,
+BodyLength
+=3 ;// " ++ [128512]%N ++ runes_of_ascii " emoji
+T = ""packet""
 // @lengthOf(
 // trailing space 
-match //
-roots as MetaDataX // c
-{ /// triple
-42 :	_x ,
-3// a // b
-:msg_type  7 : a1, """"	:i8i8 , //x
-[ """ ++ [233]%N ++ runes_of_ascii "t" ++ [233]%N ++ runes_of_ascii """ ]: i8i8 , 00 : leftPad ,
-    } , @calculatedFrom( // @lengthOf(
-"""" ) char[  00 // c
-]
-Foo
-@lengthOf( uint8x) ,  f32 chars , }packet
-    metadata
-    //	t
-    { } MetaData i64_ // packet A { u8 x, }
-{ lengthOf options1 ,
-// @lengthOf(
-//x
-a1 A,
-    x Header ,
-    }
-")).
-Eval vm_compute in ("<<<M1324>>>" ++ check (runes_of_ascii "// top
-options
-    // c0
-{ LittleEndian
-    // c2
-= false
-    // c4
 ;
-    // c5
-StringPrefixLenType
-    // c6
-=
-    // c7
-u8
-    // c8
-; // c9
-ArrayPrefixLenType // c10
-= // c11a
-  // c11b
-u64
-    // c12
-; // c13a
-  // c13b
-FixedStringPadFromLeft
-    // c14
-= false ;
-    // c17
-FixedStringPadChar // c18a
-  // c18b
-=
-    // c19
-' ' // c20a
-  // c20b
-; }
-    // c22
-packet
-    // c23
-Reject // c24a
-  // c24b
-{ // c25a
-  // c25b
-repeat char[ 4 ] // c29a
-  // c29b
-seqNo // c30
-, // c31
-string // c32
-Px
-    // c33
-,
-    // c34
-} root packet Trade // c38a
-  // c38b
-{ // c39a
-  // c39b
-@rightPad ( // c41
-'0' // c42
-)
-    // c43
-char[
-    // c44
-2 // c45
-] msgKind // c47
-, // c48
-repeat
-    // c49
-f64
-    // c50
-price // c51a
-  // c51b
-, InAcct79
-    // c53
-{
-    // c54
-repeat // c55a
-  // c55b
-Reject
-    // c56
-,
-    // c57
-zchar[ // c58a
-  // c58b
-7 // c59
-] // c60a
-  // c60b
-OrderId
-    // c61
-,
-    // c62
-} // c63
-, // c64
-Reject // c65a
-  // c65b
-, // c66
-} ")).
-Eval vm_compute in ("<<<M1727>>>" ++ check (runes_of_ascii "options {
-    string_ = false;
-    falsey = char[4294967296];
-}
-
-packet zchar {
-    match float as len {
-        [""" ++ [233]%N ++ runes_of_ascii "t" ++ [233]%N ++ runes_of_ascii """] : matchKey,
-        3 : u,
-        [4294967296, ""1""] : zchar,
-    },
-}
-
-MetaData T {
-}
-
-packet packetx {
-    uint16 uint8x @calculatedFrom(""it's""),
-    stringy {
-        i16 crc `{ , }`,
-    },
-    zchar[00] x,
-    zchar {
-        uint64 tag,
-        zchar f32a `say ""hi""`,
-        uint32 A `{ , }`,
-        match _x as falsey {
-            [007, """ ++ [128512]%N ++ runes_of_ascii """] : matchKey,
-            // " ++ [128512]%N ++ runes_of_ascii " emoji
-            [0123456789, 3] : T,
-            // " ++ [128512]%N ++ runes_of_ascii " emoji
-            // `tick` ""quote"" 'q'
-            1 : Foo,
-        },// trailing space 
-    },
-    A,
-    zchar[4294967296] string_ @lengthOf(float),
-    match rootA as As {
-        [
-            255, 0123456789, ""it's"", """ ++ [233]%N ++ runes_of_ascii "t" ++ [233]%N ++ runes_of_ascii """, ""{,}"",
-            ""abc"", """ ++ [233]%N ++ runes_of_ascii "t" ++ [233]%N ++ runes_of_ascii """
-        ] : int,
-        4294967296 : tag,
-    },
-}")).
-Eval vm_compute in ("<<<M322>>>" ++ check (runes_of_ascii "packet leftPad { //
-i8 stringy @calculatedFrom( """ ++ [128512]%N ++ runes_of_ascii """	) , int@calculatedFrom(
 // c
-// " ++ [128512]%N ++ runes_of_ascii " emoji
-""a	b"" )
-`it's` ,
-    @leftPad () @tag( 0123456789
-    )int32 u8x , @lengthOf(A )float64	u128	@calculatedFrom(
-    ""a\\"" ), //x
-} options { //x
-Pad = 0 u =
-    ' ' }MetaData
-    a1 { char[]
-metadata	`// not a comment`
-    // @lengthOf(
-    ,
-}	packet
-Foo { @tag(
-42 )	repeat BodyLength ,
-    int8 metadata`{ , }` ,@leftPad ( // c
-)// " ++ [27880; 37322]%N ++ runes_of_ascii "
-@calculatedFrom(//
-""`tick`""
-    ) @calculatedFrom(	""a	b""	) u32 stringy , @lengthOf( roots ) zchar[ 0 ] msg_type @lengthOf( i64_
-)`tab	here`	,i8 Header	`{ , }`
-, char[ 7
-] trueish @lengthOf(	packetx
+// trailing space 
+crc = true ;
+falsey= '\x00'/// triple
+;
+} root packet A
+    {@leftPad (
+'0' )	char[
+65535 ] Header  `" ++ [233]%N ++ runes_of_ascii "` ,
+@rightPad( '0' ) //
+a1 @lengthOf( msg_type ) , @lengthOf( rootA )
+    match
+_x as //x
+stringy {""CRC32"" : chars, 3// `tick` ""quote"" 'q'
+:float , 255	:	asx // `tick` ""quote"" 'q'
+, 10  : tag ,//
+} ,
+    @calculatedFrom(
+    """ ++ [128512]%N ++ runes_of_ascii """	) u32 u8x`crlf
+line` , repeat char[]	asx `a\` , @rightPad ( '0'	)match f32a  as Packet
+    { [ 255 , ""CRC32"" , 007
+, ""1"",""packet"" , 00 ,
+    4294967296 ]	: calculatedFrom , ""packet"" :
+    falsey, ""a\""b"": body , 7// a // b
+: Packet // " ++ [128512]%N ++ runes_of_ascii " emoji
+0123456789 :	i64_ ,
+    // a // b
+    [4294967296 , 0123456789 ]  : // `tick` ""quote"" 'q'
+options1	} ,crc /// triple
+@lengthOf(	Foo
     )
-, u64	charz `
-`
     ,
-    zchar[
-//	t
-// c
-65535]
-repeatCount
-`it's`
-    ,match // @lengthOf(
-calculatedFrom as calculatedFrom  {""a	b""
-: roots 42	: MetaDataX	,
-},
-}")).
-Eval vm_compute in ("<<<M1371>>>" ++ check (runes_of_ascii "// top
-options // c0
-{ LittleEndian // c2
-= true // c4a
-  // c4b
-; // c5
-} // c6a
-  // c6b
-packet // c7
-Logon
-    // c8
-{
-    // c9
-u8 // c10a
-  // c10b
-x // c11a
-  // c11b
-, string // c13a
-  // c13b
-user // c14
-, // c15a
-  // c15b
-} packet // c17a
-  // c17b
-Logout {
-    // c19
-u16
-    // c20
-reason
-    // c21
-, // c22
-} // c23a
-  // c23b
-packet
-    // c24
-Empty // c25a
-  // c25b
-{ } root // c28
-packet
-    // c29
-Frame // c30a
-  // c30b
-{
-    // c31
-u16
-    // c32
-MsgType ,
-    // c34
-u8 // c35a
-  // c35b
-BodyLen // c36a
-  // c36b
-@lengthOf( Body // c38
-) , // c40a
-  // c40b
-u8
-    // c41
-flags // c42a
-  // c42b
-, // c43
-Logon
-    // c44
-Body
-    // c45
-, // c46
-u32 trailer // c48a
-  // c48b
+@calculatedFrom( ""{,}"")@lengthOf(metadata ) @lengthOf( i8i8
+)int64 options1 @calculatedFrom(""CRC32"" )
+    `line1
+line2` , // @lengthOf(
+} packet a1 // `tick` ""quote"" 'q'
+{ match lengthOf//
+as x_y_z
+{ ""it's"" :matchKey
+//
+// @lengthOf(
+, 10 :
+Packet , [ //x
+""abc""
+    ]// a // b
+: A 10 //x
+: metadata
+    ,
+    } ,
+}MetaData
+    body { char string_, char[]
+x, len Pad , string
+    leftPad , } // trailing space ")).
+Eval vm_compute in ("<<<M1517>>>" ++ check (runes_of_ascii "  root packet
+asx {
+leftPad {  u128  @calculatedFrom(	""1"")	, 	 //x
+} ,
+lengthOf // packet A { u8 x, }
+@calculatedFrom( 
+""" ++ [128512]%N ++ runes_of_ascii """
+
+    )`a\` 
 ,
-    // c49
-} ")).
-Eval vm_compute in ("<<<M1823>>>" ++ check (runes_of_ascii "packet stringy {
-    repeat T {
-        u64 lengthOf `tab	here`,
-        repeat _x {
-            match calculatedFrom as Header {
-                [""" ++ [233]%N ++ runes_of_ascii "t" ++ [233]%N ++ runes_of_ascii """] : _x,
-                // @lengthOf(
-                [""packet""] : MetaDataX,
-                255 : u128,
-                42 : A,
-                ""// no comment"" : body,
-            },
-            repeat crc Foo,
-            charz,
-        },
-        zchar[1] i8i8 @calculatedFrom(""x y""),
-        uint8x Pad `line1
-                line2`,
-    },
-    @lengthOf(u)
-    char[4294967296] crc,
-    @tag(007)
-    repeatCount,
-    repeat char[] Header,
-    @rightPad()
-    char[] string_ `a\`,
-}")).
-Eval vm_compute in ("<<<M1357>>>" ++ check (runes_of_ascii "  options 
+	i64 // `tick` ""quote"" 'q'
+  Packet  @lengthOf(
+
+    calculatedFrom
+	)
+    , @calculatedFrom(
+	""" ++ [233]%N ++ runes_of_ascii "t" ++ [233]%N ++ runes_of_ascii """ 
+)
+
+    stringy a1 `doc` 	 // `tick` ""quote"" 'q'
+  ,
+
+@rightPad(
+// a // b
+  )
+    // c
+  a1
+    `a\` , char  Header
+
+@lengthOf(
+	x
+)	`say ""hi""`	,
+    uint8x 
+Z9_
+`tab	here` ,
+}
+options
+{calculatedFrom // packet A { u8 x, }
+
+= 0 
+} 
+packet
+    metadata
+
 {
-StringPrefixLenType
-= 
-u8
-;
-ArrayPrefixLenType=  u8 ;
+    @leftPad
+( '\x00'  ) f32
+pack
 
-FixedStringPadFromLeft
-    =
-false 
-;
-	FixedStringPadChar
-=' '
+//	t
+  //
+		, 
+@tag(
+	65535
 
-;
-    } packet Ack	{ 
-char[]
-	tag7,	}
-	packet
-    Reject 
-{InSym61
-    {
-
+    ) u32
+uint8x@lengthOf(repeatCount
+)
+    ``  , MetaDataX
+{
 repeat
 
-Ack
-, zchar[4
+options1 ,match
+matchKey
+
+as
+len
+	{ """ ++ [128512]%N ++ runes_of_ascii """
+
+    :
+u8x 
+,
+1
+
+    :
+	zchar
+,/// triple
+    [""a\\""
+, ""x y""
 ]
-	f1
+	:  charz
+
+0
+	:x_y_z
+//
+  ,	[	// trailing space 
+4294967296 	 // `tick` ""quote"" 'q'
+      ] :	asx,  [  /// triple
+  ""a\""b"", ""\n""
+
+    ,""\" ++ [233]%N ++ runes_of_ascii """	, 10
+
+] :
+	_x  ,},uint8
+	metadata
+	@lengthOf( 
+float
+	) , zchar[ 255]  i8i8 ,
+}
+
+,
+
+}
+
+root	packet	f32a
+	{  }")).
+Eval vm_compute in ("<<<M1445>>>" ++ check (runes_of_ascii "
+
+  options {
+	FixedStringPadFromLeft
+    = true;
+    FixedStringPadChar= '0' 
+;	}
+packet
+Leg
+{ 
+repeat
+
+    InSym93 
+{
+	zchar[ 
+3 ]
+
+    Acct
+	,
+string
+Side2
+, i32
+Flags
+,  f32 Note
+	,
+i32
+	msgKind	,},
+
+    f64
+Note , uint16
+Px
+	,
+
+} packet  Quote	{  zchar[  2
+]
+
+OrderId ,  }packet
+
+    Ack{  repeat
+
+    string lastPx ,
+
+zchar[
+    4  ]price
+,  uint32 OrderId ,
+	Quote, int8
+Acct
 , 
-}
-,}	packet
-Logout{
-char[
+} packet Fill
 
-4
+    { repeat	Leg  ,
 
-    ] clOrdID , 
-}
-	root
-packet Cancel  {@leftPad
-    ( 
-' ')
+@rightPad (  '0')	char[ 11	] Note ,	f64
 
-char[
-
-    10
-
-]	price
-,u8
-	x
-, u32 venue 
-@lengthOf(
-Body	) ,	match
-
-    x  as Body  {
-[ 
-92 ,  175 ]
-    : Logout ,  26
-:
-Reject
-
-    , 144 
-:
-	Ack	, }
-    ,u16  count	@calculatedFrom(
-    ""CRC32""	)
-
-    , }
-")).
-Eval vm_compute in ("<<<M1886>>>" ++ check (runes_of_ascii "
-options
-    // @lengthOf(
-
-  {	} 
-packet charz{
+    Px
+    ,
 
     @rightPad  (
-' '
+    '\x00'	)  char[
+    5
 
-) @calculatedFrom( 
-""a\\"" ) 
-repeat
-int crc `two words`
-,string
-	stringy
-@calculatedFrom(""a	b""
-    // " ++ [128512]%N ++ runes_of_ascii " emoji
-) 
-`// not a comment`, //
-    char
-	i8i8
+    ]
+Flags , zchar[ 9 
+]	x  ,
+
+string msgKind
+    ,
+    } root packet Order  { 
+Leg 
+, repeat
+
+    Ack
+, @rightPad
+(	'\x00'	) char[
+	3
+]Side2
+,
+	repeat  char[
+	1]
+seqNo
 ,
 
-    }MetaData
-    crc
-    { 	 // `tick` ""quote"" 'q'
-crc
-
-    i64_ `{ , }`,  
-      // `tick` ""quote"" 'q'
-  i32 // c
-  u128
-	,	// packet A { u8 x, }
-
-BodyLength	Header ,char[0123456789  ] 
-    /// triple
-    //
-    Packet	`u8 x,` ,
-    uint8	repeatCount 
-, //	t
-    } ")).
-Eval vm_compute in ("<<<M253>>>" ++ check (runes_of_ascii "packet
-u	{ @lengthOf( //
-zchar )match Header as len  {
-    42// trailing space 
-:
-    x_y_z ,
-    // " ++ [27880; 37322]%N ++ runes_of_ascii "
-    },rootA	`
-`	,	match u8x as pack {[ 1 , """" ]
-    : float , ""abc""  :
-string_ ,42 :
-    i64_/// triple
+    u16  clOrdID
 ,
-1:zchar
-// trailing space 
-// " ++ [128512]%N ++ runes_of_ascii " emoji
-} ,char[ 3 ] int ,
-match options1 as u128 { [ ""`tick`"" ] : u
-// packet A { u8 x, }
-/// triple
-, } ,	}
-options {	len	= //	t
-i8 // " ++ [27880; 37322]%N ++ runes_of_ascii "
-; zchar = true; } packet T{char[ 42 ] asx@calculatedFrom(""CRC32"" ) , }
-")).
-Eval vm_compute in ("<<<M349>>>" ++ check (runes_of_ascii "root
-packet body {
-    @lengthOf(
-int
-// @lengthOf(
-//x
-)string tag
-    ,	Pad BodyLength , Z9_ {
-    /// triple
-    u `` , zchar[ 7] u ,
-},uint64 calculatedFrom, }packet
-msg_type {match f32a// " ++ [128512]%N ++ runes_of_ascii " emoji
-as pack
-    { ""// no comment"" : trueish
-, }
-    // trailing space 
-    , @calculatedFrom( // @lengthOf(
-""abc""
+
+match  clOrdID as Body {
+
+    198:	Leg
+
+    ,
+23
+: 
+Quote 
+,	13 
+: Ack, 
+159:Fill,
+    } ,	u32
+
+    venue
+	@calculatedFrom(""CRC32"") 
+,
+} ")).
+Eval vm_compute in ("<<<M371>>>" ++ check (runes_of_ascii "root
+    packet
+packetx
+    {
+    @tag( 0) char[00 ] Z9_
+    ,
+    // a // b
+    falsey
+    // c
+    { match
+    x as options1 { [//	t
+42 ,
+    007 ]:
+    uint8x } , uint8 falsey `crlf
+line` , }
+, f64 Pad
+, @tag(7  ) string Logon// " ++ [27880; 37322]%N ++ runes_of_ascii "
+`a\`, @lengthOf(
+lengthOf//	t
+) char[
+3
+    ]
+// " ++ [27880; 37322]%N ++ runes_of_ascii "
+//
+calculatedFrom @calculatedFrom(
+""" ++ [28040; 24687]%N ++ runes_of_ascii """
 )
-    @leftPad (
-' ') @calculatedFrom( """" //x
-) // c
-matchKey T ,// `tick` ""quote"" 'q'
+, char[]
+    T , //x
+@tag(
+42 ) @leftPad ( )
+    char[]trueish
+@calculatedFrom(""`tick`"" ) ,match
+    // `tick` ""quote"" 'q'
+    uint8x as pack { [
+    ""abc"",
+    ""1"" ,""packet""
+,
+// `tick` ""quote"" 'q'
+// `tick` ""quote"" 'q'
+1,
+    ""a\""b""]: As	, """ ++ [28040; 24687]%N ++ runes_of_ascii """ :
+    trueish ,} ,
 }
+packet/// triple
+charz
+{
+    repeat
+Z9_ { Pad  {match len as string_{
+    // a // b
+    4294967296
+    : msg_type , [""// no comment""
+    ] :u
+    ,
+} ,} , zchar[
+    65535
+] As  @lengthOf(//x
+string_
+)
+,
+} ,
+    }")).
+Eval vm_compute in ("<<<M90>>>" ++ check (runes_of_ascii "root packet lengthOf
+{ // a // b
+match i64_  as options1{	""// no comment"":
+    // packet A { u8 x, }
+    f32a
+    // @lengthOf(
+    , 65535 :
+    falsey, } ,  @tag(
+0
+)  char[]
+    body
+@lengthOf(  lengthOf ) ,	u64 string_ `it's`,@lengthOf( string_ // packet A { u8 x, }
+)crc {repeat
+zchar[ 3
+] u	,	pack // packet A { u8 x, }
+`a\`// trailing space 
+,char[] crc `` , } //x
+,int16 // packet A { u8 x, }
+metadata `line1
+line2`, }root	packet //	t
+leftPad
+{ repeat	zchar[
+4294967296 //x
+] MetaDataX
+    ,@tag( 10 // `tick` ""quote"" 'q'
+) match  tag as falsey
+{ 7:
+    BodyLength
+, 0 : i64_ ,} , repeat char[ 255
+    // @lengthOf(
+    ] A
+,
+char[ 7]
+trueish @calculatedFrom(	""a\\"" ) `two words`
+// " ++ [128512]%N ++ runes_of_ascii " emoji
+//	t
+, i16
+Logon, }
 ")).
-Eval vm_compute in ("<<<M1595>>>" ++ check (runes_of_ascii "MetaData Pad {
+Eval vm_compute in ("<<<M243>>>" ++ check (runes_of_ascii "// a // b
+packet stringy { @tag( 3 ) // trailing space 
+i64
+    len
+,@calculatedFrom( ""1""  ) char[
+0 ]
+x @lengthOf(Foo )
+,@calculatedFrom( """" )
+body
+// c
+// " ++ [128512]%N ++ runes_of_ascii " emoji
+@lengthOf(
+calculatedFrom )`line1
+line2`
+    , @calculatedFrom( ""it's"" // " ++ [128512]%N ++ runes_of_ascii " emoji
+)// packet A { u8 x, }
+match falsey
+    // packet A { u8 x, }
+    as u8x {[
+""" ++ [128512]%N ++ runes_of_ascii """
+    , // a // b
+42 , 1 ,10 ]
+: Header , } ,
+// trailing space 
+// `tick` ""quote"" 'q'
+} MetaData// " ++ [128512]%N ++ runes_of_ascii " emoji
+stringy{ f32a
+    u128 `{ , }` , char[ // a // b
+10 ]u128	, chars _x , zchar[ 65535 // trailing space 
+]/// triple
+falsey
+    `{ , }`
+    , _x i64_
+, int32
+Packet
+`crlf
+line` , } MetaData lengthOf
+{
+    }
+// trailing space 
+")).
+Eval vm_compute in ("<<<M366>>>" ++ check (runes_of_ascii "packet
+// @lengthOf(
+//	t
+f32a { char[] Header`" ++ [233]%N ++ runes_of_ascii "` ,  @tag( 00
+) zchar[ 255  ] int
+    , @lengthOf(	trueish)
+x @calculatedFrom( """ ++ [128512]%N ++ runes_of_ascii """
+    )`say ""hi""` , @leftPad
+    (	'\x00'
+) @lengthOf( //	t
+u128 )//	t
+repeat BodyLength ,
+falsey @lengthOf( uint8x ), //
+@lengthOf( rootA) repeat uint8 T  `a\` , repeat  string
+lengthOf
+`it's` , @leftPad(
+    '\x00' )
+zchar[ 42
+// packet A { u8 x, }
+// a // b
+] u`say ""hi""` ,// a // b
+repeat packetx
+// a // b
+// packet A { u8 x, }
+{
+Pad  f32a
+,// trailing space 
+i8i8 msg_type `say ""hi""` , i64_ repeatCount , char[]chars , } ,}MetaData _x
+{  x matchKey `" ++ [28040; 24687; 31867; 22411]%N ++ runes_of_ascii "`, }")).
+Eval vm_compute in ("<<<M66>>>" ++ check (runes_of_ascii "packet	int {// @lengthOf(
+repeat
+string
+    BodyLength
+    `a\`
+    , } packet repeatCount { @lengthOf( x_y_z ) crc ,
+    match Packet as
+Z9_{""// no comment"" :MetaDataX ,
+//	t
+// a // b
+[  00, 7]: chars ,""CRC32""
+    : zchar 42: stringy //	t
+, [ ""a\""b"",""1""// a // b
+] : u ,
+},
+@rightPad
+( ' ' )
+@lengthOf( i64_//x
+)
+    repeat
+f64
+x `two words`
+    , @calculatedFrom(""`tick`""	) int64 falsey @lengthOf(//x
+u128 ) , charz
+    {
+    //x
+    char[]
+    T
+// c
+// " ++ [27880; 37322]%N ++ runes_of_ascii "
+`a\` ,
+}
+,@lengthOf(
+    u8x)string_, repeat
+// " ++ [128512]%N ++ runes_of_ascii " emoji
+//	t
+x
+    , }
+")).
+Eval vm_compute in ("<<<M328>>>" ++ check (runes_of_ascii "
+packet
+Logon { repeatCount { BodyLength
+    `crlf
+line`, }
+    , zchar a1 `u8 x,`  ,
+match Foo as Foo { ""\n"" :i8i8,[
+""abc""
+    , // trailing space 
+""CRC32"" ]
+/// triple
+// " ++ [128512]%N ++ runes_of_ascii " emoji
+: // @lengthOf(
+crc
+    [ 3 ,
+//
+// " ++ [128512]%N ++ runes_of_ascii " emoji
+""x y"", 42 , ""`tick`""
+, 1 , ""a\""b"",
+    ""CRC32"" , 255 ]:repeatCount , [// " ++ [128512]%N ++ runes_of_ascii " emoji
+1
+// a // b
+// " ++ [27880; 37322]%N ++ runes_of_ascii "
+,007 ,
+""\n"",007 , 7 , ""// no comment"" ,
+255 ] :
+    uint8x 00
+: f32a , } ,
+    // a // b
+    uint16 Pad @lengthOf( uint8x)// packet A { u8 x, }
+`doc`  ,
+}")).
+Eval vm_compute in ("<<<M14>>>" ++ check (runes_of_ascii "MetaData u128
+    {// a // b
+string zchar //x
+`two words` ,u16 packetx
+`a\` , char[ 1 ] Logon	, len crc, char[
+7]i8i8,char[]calculatedFrom,
+} // @lengthOf(
+MetaData u
+    { u// " ++ [128512]%N ++ runes_of_ascii " emoji
+u128
+, //	t
+}root packet metadata { }options	{ matchKey =
+    255
+;
+x_y_z
+= 007 crc=int16
+; zchar =// c
+char[42 ]
+; int
+= true ;
+} options  {
+Header = """ ++ [128512]%N ++ runes_of_ascii """
+;
+len
+    = ' ' ; matchKey= """" ;MetaDataX =' '
+; o
+    = '\x00' ; }
+/// triple
+")).
+Eval vm_compute in ("<<<M1843>>>" ++ check (runes_of_ascii "MetaData Pad {
     i16 repeatCount,
     f32 pack `a\`,
 }
@@ -651,57 +676,39 @@ packet f32a {
     },
     @lengthOf(BodyLength)
     repeat Foo `line1
-    line2`,
+        line2`,
 }// @lengthOf(")).
-Eval vm_compute in ("<<<M1927>>>" ++ check (runes_of_ascii "
-
-  packet
-
-int
-	{
-	T 	 /// triple
-
-  {repeat
-_x
-
-,
-}, 
-i64_
-_x  `
-`, 
-@calculatedFrom( ""x y"" )u32
-
-    A 
-,	match
-a1
-
-as
-    i8i8
-	{ [ 
-""1"" 
-,4294967296 
-] :
-a1
-
-, 
-"""" :a1
-,007 :  a1,[ ""CRC32""
-
-    ]
-    :  Header
-}
-,
-int64	As , int8
-	a1
-    ,	//
-  char[]
-float
-`tab	here`	/// triple
-  , repeat
-	zchar[
-
-1 ] u8x ,
-	}  /// triple
+Eval vm_compute in ("<<<M1234>>>" ++ check (runes_of_ascii "// top
+options // c0
+{ // c1
+f32a // c2
+= // c3
+0 // c4
+} // c5
+packet // c6
+trueish // c7
+{ // c8
+} // c9
+MetaData // c10
+_x // c11
+{ // c12
+char[ // c13
+0123456789 // c14
+] // c15
+zchar // c16
+, // c17
+string // c18
+crc // c19
+, // c20
+char[ // c21
+1 // c22
+] // c23
+options1 // c24
+, // c25
+uint8 // c26
+repeatCount // c27
+, // c28
+} // c29
 ")).
 Eval vm_compute in ("<<<M1367>>>" ++ check (runes_of_ascii "options {
     LittleEndian = true;
@@ -725,68 +732,78 @@ root packet Frame {
     },
 }
 ")).
-Eval vm_compute in ("<<<M287>>>" ++ check (runes_of_ascii "root // trailing space 
-packet int {
-    f32a @calculatedFrom(""packet"" )
-    `
+Eval vm_compute in ("<<<M215>>>" ++ check (runes_of_ascii "root	packet
+    i8i8 { @tag( // c
+4294967296 )
+    // packet A { u8 x, }
+    Header  calculatedFrom `
 `
-    , } options
-{
-    rootA
-    // @lengthOf(
-    =
-""\" ++ [233]%N ++ runes_of_ascii """; }
-    packet
-i8i8 {
-    // trailing space 
-    uint8
-    uint8x
-    @lengthOf( string_ ) //	t
-, i32 tag //	t
-@lengthOf(
-Logon )  , }")).
-Eval vm_compute in ("<<<M242>>>" ++ check (runes_of_ascii "packet len{} options	{ Z9_ =  4294967296;
-_x =// a // b
-0
-    f32a = zchar[42	] ; } root packet
-    // @lengthOf(
-    BodyLength // trailing space 
-{ }options {
-string_ =u32	;	charz =
+, @tag(4294967296 )
+@rightPad ( ' '
+    )
+@lengthOf( float )
+    options1 zchar `" ++ [233]%N ++ runes_of_ascii "`
+//x
 /// triple
-// packet A { u8 x, }
-string
-; } packet len { }")).
-Eval vm_compute in ("<<<M273>>>" ++ check (runes_of_ascii "root packet string_ { @leftPad (
-    ' ' )  chars { repeat
-zchar[ 0
-]  tag ,string falsey,// " ++ [128512]%N ++ runes_of_ascii " emoji
-repeat  char[ 007] body  `two words`
-    , } , @calculatedFrom(
-""// no comment"" ) Foo T
-    , // " ++ [128512]%N ++ runes_of_ascii " emoji
-}
+,}	root packet
+    // " ++ [128512]%N ++ runes_of_ascii " emoji
+    x {repeat
+zchar[  10 ]	x`u8 x,`,
+    }")).
+Eval vm_compute in ("<<<M139>>>" ++ check (runes_of_ascii "packet//x
+x_y_z {rootA @lengthOf( o ) `two words` ,} MetaData f32a{
+trueish
+    // packet A { u8 x, }
+    x , }
+    MetaData body
+    { u128 pack , f64
+    // @lengthOf(
+    float	, char[ 65535
+//	t
+/// triple
+] tag `" ++ [233]%N ++ runes_of_ascii "`// c
+,  } // " ++ [128512]%N ++ runes_of_ascii " emoji")).
+Eval vm_compute in ("<<<M350>>>" ++ check (runes_of_ascii "MetaData Pad
+{ i64 Packet `{ , }`
+    , // `tick` ""quote"" 'q'
+repeatCount  trueish // packet A { u8 x, }
+`say ""hi""`	, f32 pack`// not a comment` ,// `tick` ""quote"" 'q'
+u32
+calculatedFrom ,char //	t
+zchar
+,}
 ")).
-Eval vm_compute in ("<<<M1827>>>" ++ check (runes_of_ascii "packet A {
-    match k as n {
-        [
-            ""a"", ""bb"", ""c c"", ""d"", ""e"",
-            ""f"", ""g"", ""h"", ""i"", ""j"",
-            ""k"", ""l""
-        ] : B,
-        2 : C,
-    },
-}")).
-Eval vm_compute in ("<<<M431>>>" ++ check (runes_of_ascii "packet uint8x
-{ match pack
-    as msg_type	{
-    0123456789 0123456789 :	float
-}
+Eval vm_compute in ("<<<M357>>>" ++ check (runes_of_ascii "MetaData x_y_z
+{
+lengthOf // packet A { u8 x, }
+rootA , MetaDataX// " ++ [128512]%N ++ runes_of_ascii " emoji
+_x , char[ 4294967296 ] stringy , char[
+//
+// c
+007
+] u128
+, tag u8x `line1
+line2` ,  uint8 u128 , }
+")).
+Eval vm_compute in ("<<<M1256>>>" ++ check (runes_of_ascii "// top
+root // c0
+packet P // c2
+{ // c3
+hdr
+    // c4
+{
+    // c5
+u8 // c6
+a // c7a
+  // c7b
 ,
-} packet //	t
-a1
-    { } options {packetx
-    = '\x00'	; u128= ""a	b""  ; }
+    // c8
+} , // c10
+u8 // c11
+x // c12a
+  // c12b
+, }
+    // c14
 ")).
 Eval vm_compute in ("<<<M411>>>" ++ check (runes_of_ascii "packet uint8x
 { match pack pack
@@ -799,267 +816,259 @@ a1
     { } options {packetx
     = '\x00'	; u128= ""a	b""  ; }
 ")).
-Eval vm_compute in ("<<<M426>>>" ++ check (runes_of_ascii "packet uint8x
+Eval vm_compute in ("<<<M451>>>" ++ check (runes_of_ascii "packet uint8x
 { match pack
-    as msg_type	{ {
+    as msg_type	{
     0123456789 :	float
 }
-,
+, ,
 } packet //	t
 a1
     { } options {packetx
     = '\x00'	; u128= ""a	b""  ; }
 ")).
-Eval vm_compute in ("<<<M547>>>" ++ check (runes_of_ascii "%packet uint8x
-{ match pack
-    as msg_type	{
-    0123456789 :	float
-}
-,
-} packet //	t
-a1
-    { } options {packetx
-    = '\x00'	; u128= ""a	b""  ; }
-")).
-Eval vm_compute in ("<<<M507>>>" ++ check (runes_of_ascii "packet uint8x
-{ match pack
-    as msg_type	{
-    0123456789 :	float
-}
-,
-} packet //	t
-a1
-    { } options {packetx
-    = '\x00'	u128 ;= ""a	b""  ; }
-")).
-Eval vm_compute in ("<<<M465>>>" ++ check (runes_of_ascii "packet uint8x
-{ match pack
-    as msg_type	{
-    0123456789 :	float
-}
-,
-} packet //	t
+Eval vm_compute in ("<<<M1895>>>" ++ check (runes_of_ascii "
 
-    { } options {packetx
-    = '\x00'	; u128= ""a	b""  ; }
+  packet A {  match
+k  as n
+
+{
+    [
+
+""a"" 
+, 
+""bb""
+
+    ,
+    ""c c"", ""d"" ,
+""e"" ,
+    ""f""
+
+,	""g"" ,
+""h""
+,
+    ""i"" 
+]:B
+, 
+2
+    :
+    C
+
+} 
+, }
 ")).
-Eval vm_compute in ("<<<M674>>>" ++ check (runes_of_ascii "// @lengthOf(
-packet i8i8 { { u128 o , }
+Eval vm_compute in ("<<<M527>>>" ++ check (runes_of_ascii "packet uint8x
+{ match pack
+    as msg_type	{
+    0123456789 :	float
+}
+,
+} packet //	t
+a1
+    { } options {packetx
+    = '\x00'	; u128= ""a	b""  } ;
+")).
+Eval vm_compute in ("<<<M700>>>" ++ check (runes_of_ascii "// @lengthOf(
+packet i8i8 { u128 o , }
+options { MetaDataX = true true;
+    BodyLength =""packet"" x_y_z= 007
+crc //x
+= ""abc"" ;
+    msg_type =
+i16 }")).
+Eval vm_compute in ("<<<M696>>>" ++ check (runes_of_ascii "// @lengthOf(
+packet i8i8 { u128 o , } }
 options { MetaDataX = true;
     BodyLength =""packet"" x_y_z= 007
 crc //x
 = ""abc"" ;
     msg_type =
 i16 }")).
-Eval vm_compute in ("<<<M675>>>" ++ check (runes_of_ascii "// @lengthOf(
-packet i8i8 { u128 o , }
-options { MetaDataX true =;
+Eval vm_compute in ("<<<M715>>>" ++ check (runes_of_ascii "// @lengthOf(
+packet i8i8 { u128 o , options
+} { MetaDataX = true;
     BodyLength =""packet"" x_y_z= 007
 crc //x
 = ""abc"" ;
     msg_type =
 i16 }")).
-Eval vm_compute in ("<<<M1746>>>" ++ check (runes_of_ascii "packet A {
-    match k as n {
-        [
-            007, 66, ""a"", ""bb"", ""d"",
-            ""e"", ""g"", ""h""
-        ] : B,
-        2 : C,
-    },
-}")).
-Eval vm_compute in ("<<<M1634>>>" ++ check (runes_of_ascii "
-MetaData
+Eval vm_compute in ("<<<M1792>>>" ++ check (runes_of_ascii "MetaData
+leftPad
 
-leftPad {// c
-  chars	MetaDataX ,
-} packet
-	repeatCount
-	{	char[
-	255
-    ] uint8x 
-`" ++ [233]%N ++ runes_of_ascii "` ,}
+{chars	MetaDataX,
+	}packet
 
-MetaData	pack
-	{
-
-As Foo 
-,
-
-}
-")).
-Eval vm_compute in ("<<<M1516>>>" ++ check (runes_of_ascii "  MetaData
-leftPad {	chars
-MetaDataX
-
-, }packet repeatCount {char[ 255]
-	uint8x `" ++ [233]%N ++ runes_of_ascii "` ,	}  MetaData 
-pack {As
-	Foo  ,
-	}
-	// c")).
-Eval vm_compute in ("<<<M1760>>>" ++ check (runes_of_ascii "packet A {
-    Inner {
-        u8 x `x
-        `,
-        Deep {
-            u8 y `x
-            `,
-        },
-    },
-}")).
-Eval vm_compute in ("<<<M1172>>>" ++ check (runes_of_ascii "MetaData leftPad { chars MetaDataX , } packet repeatCount { char[ 255 ] uint8x `" ++ [233]%N ++ runes_of_ascii "`
-// c
-, } MetaData pack { As Foo , }")).
-Eval vm_compute in ("<<<M1936>>>" ++ check (runes_of_ascii "  packet A
-{
-    match
-	k
-
-as
-
-n{
-	[ 1 , 
-""bb""	,
-    007
-
-    , ""d"" ,	5 
-, 
-""f"" ,
-
-    7  ]: B 2
-    :  C }	,}")).
-Eval vm_compute in ("<<<M908>>>" ++ check (runes_of_ascii "packet A {
-  match k as n {
-    [1, ""bb"", 007, ""d"", 5, ""f"", 7, ""h"", 9, ""j"", 11, ""l""] : B,
-    2 : C
-  },
-}")).
-Eval vm_compute in ("<<<M888>>>" ++ check (runes_of_ascii "packet A {
-  match k as n {
-    [""a"", ""bb"", 007, ""d"", ""e"", 66, ""g"", ""h"", 9, ""j""] : B,
-    2 : C
-  },
-}")).
-Eval vm_compute in ("<<<M904>>>" ++ check (runes_of_ascii "packet A {
-  match k as n {
-    [1, 22, 007, 4, 5, 66, 7, 8, 9, 10, 11, 12] : B,
-    2 : C
-  },
-}")).
-Eval vm_compute in ("<<<M593>>>" ++ check (runes_of_ascii "
-packet
-    asx {match u128 as lengthOf
-{
-//	t
-// `tick` ""quote"" 'q'
-255 255 : x ,
-    } ,	}")).
-Eval vm_compute in ("<<<M842>>>" ++ check (runes_of_ascii "packet A {
-  match k as n {
-    [""a"", ""bb"", ""c c"", ""d"", ""e"", ""f"", ""g""] : B
-    2 : C
-  },
-}")).
-Eval vm_compute in ("<<<M614>>>" ++ check (runes_of_ascii "
-packet
-    asx {match u128 as lengthOf
-{
-//	t
-// `tick` ""quote"" 'q'
-255 : x ,
-    , }	}")).
-Eval vm_compute in ("<<<M1729>>>" ++ check (runes_of_ascii "
-packet
-    Inner {
-u8	a
-    ,
-	}root
-
-packet 
-P
-{ Inner ref_obj ,	u8
-
-    x 
-,	}
-")).
-Eval vm_compute in ("<<<M116>>>" ++ check (runes_of_ascii "root packet Z9_ { repeat lengthOf
-pack , repeat
-    A {	repeatCount`doc` ,
-    },	}")).
-Eval vm_compute in ("<<<M834>>>" ++ check (runes_of_ascii "packet A {
-  match k as n {
-    [1, 22, ""c c"", 4, 5, ""f""] : B,
-    2 : C
-  },
-}")).
-Eval vm_compute in ("<<<M1732>>>" ++ check (runes_of_ascii "packet A {
-    match k as n {
-        [22, ""a""] : B,
-        2 : C,
-    },
-}")).
-Eval vm_compute in ("<<<M1099>>>" ++ check (runes_of_ascii "packet A {
-    match k as n {
-        1 : B // c
-        , // d
-    },
-}")).
-Eval vm_compute in ("<<<M739>>>" ++ check (runes_of_ascii "zchar[ i64 @calculatedFrom( match false ) Header char[ @lengthOf( :")).
-Eval vm_compute in ("<<<M918>>>" ++ check (runes_of_ascii "packet A {
-    B b `a
-b`,
-    B `a
-b`,
-    repeat B bs `a
-b`,
-}")).
-Eval vm_compute in ("<<<M1712>>>" ++ check (runes_of_ascii "
-// top
-    	packet// c0
-x 
-{  // c2
-	  }
-        // c3
-")).
-Eval vm_compute in ("<<<M1408>>>" ++ check (runes_of_ascii "options {
-    a = ""\
-        "";
-    b = ""\
-        ""
-}")).
-Eval vm_compute in ("<<<M1214>>>" ++ check (runes_of_ascii "packet body { i32 f32a `{ , }` , }
-// c
-options { }")).
-Eval vm_compute in ("<<<M693>>>" ++ check (runes_of_ascii "// @lengthOf(
-packet i8i8 { u128 o , }
-options")).
-Eval vm_compute in ("<<<M772>>>" ++ check (runes_of_ascii "false int8 uint64 @lengthOf( , @leftPad :")).
-Eval vm_compute in ("<<<M1905>>>" ++ check (runes_of_ascii "packet A {
-    u8 x,// c
-    u8 y,
-}")).
-Eval vm_compute in ("<<<M753>>>" ++ check (runes_of_ascii ":l" ++ [65533; 23]%N ++ runes_of_ascii "9" ++ [65533; 1549]%N ++ runes_of_ascii "F" ++ [65533; 65533; 65533; 65533]%N ++ runes_of_ascii "j)" ++ [65533; 65533; 27; 25; 65533; 65533; 261; 14; 65533]%N ++ runes_of_ascii "V" ++ [65533; 65533]%N ++ runes_of_ascii "4b-" ++ [65533; 65533]%N)).
-Eval vm_compute in ("<<<M1809>>>" ++ check (runes_of_ascii "
-MetaData 
-u
-{  
+    repeatCount{ char[	255	] 
+uint8x 
+`" ++ [233]%N ++ runes_of_ascii "` 
   // c
-  }
-")).
-Eval vm_compute in ("<<<M1080>>>" ++ check (runes_of_ascii "options { a = 1 // a
- ; }")).
-Eval vm_compute in ("<<<M153>>>" ++ check (runes_of_ascii "// trailing space 
+    	, 
+}
+MetaData
+pack {
+As Foo
+,}
 
 ")).
-Eval vm_compute in ("<<<M1061>>>" ++ check (runes_of_ascii "packet A {
+Eval vm_compute in ("<<<M1471>>>" ++ check (runes_of_ascii "packet A {
+    u8 a,
 }
-// c x")).
-Eval vm_compute in ("<<<M1021>>>" ++ check (runes_of_ascii "packet A {
+
+packet B {
+    u16 b,
 }
-// c" ++ [8239]%N)).
-Eval vm_compute in ("<<<M994>>>" ++ check (runes_of_ascii "packet A {
-}// c" ++ [5760]%N)).
-Eval vm_compute in ("<<<M762>>>" ++ check (runes_of_ascii "w|lL|]kVFeknSP9")).
+
+root packet P {
+    u8 K,
+    match K as M {
+        1 : A,
+        1 : B,
+    },
+}")).
+Eval vm_compute in ("<<<M1264>>>" ++ check (runes_of_ascii "packet B {
+    u8 a,
+}
+root packet P {
+    u8 K,
+    match K as Body {
+        1 : B,
+    },
+    u16 L @lengthOf(Body),
+}
+")).
+Eval vm_compute in ("<<<M1156>>>" ++ check (runes_of_ascii "MetaData leftPad { chars MetaDataX , }
+// c
+packet repeatCount { char[ 255 ] uint8x `" ++ [233]%N ++ runes_of_ascii "` , } MetaData pack { As Foo , }")).
+Eval vm_compute in ("<<<M1188>>>" ++ check (runes_of_ascii "MetaData leftPad { chars MetaDataX , } packet repeatCount { char[ 255 ] uint8x `" ++ [233]%N ++ runes_of_ascii "` , } MetaData pack { As Foo ,
+// c
+}")).
+Eval vm_compute in ("<<<M914>>>" ++ check (runes_of_ascii "packet A {
+  match k as n {
+    [""a"", ""bb"", 007, ""d"", ""e"", 66, ""g"", ""h"", 9, ""j"", ""k"", 12] : B,
+    2 : C
+  },
+}")).
+Eval vm_compute in ("<<<M24>>>" ++ check (runes_of_ascii "options { metadata
+= '\x00' ;
+    u128
+=
+    ""CRC32"" ; charz = ' 'options1 = 00 ; }
+packet string_ { }
+")).
+Eval vm_compute in ("<<<M1396>>>" ++ check (runes_of_ascii "packet _x {
+}// trailing space 
+
+options {
+    repeatCount = 42;
+    Pad = true;
+    x_y_z = 65535;
+}")).
+Eval vm_compute in ("<<<M258>>>" ++ check (runes_of_ascii "packet
+    metadata{ u32 // `tick` ""quote"" 'q'
+Packet `say ""hi""`
+,
+    // trailing space 
+    }")).
+Eval vm_compute in ("<<<M1498>>>" ++ check (runes_of_ascii "MetaData M {
+    u8 x `a
+            b
+          c`,
+    T t `a
+            b
+          c`,
+}")).
+Eval vm_compute in ("<<<M388>>>" ++ check (runes_of_ascii "root packet SimpleMessage {
+    uint16 MsgType `" ++ [28040; 24687; 31867; 22411]%N ++ runes_of_ascii "`,
+    string JsonBody `Json" ++ [23383; 31526; 20018; 28040; 24687; 20307]%N ++ runes_of_ascii "`,
+}")).
+Eval vm_compute in ("<<<M878>>>" ++ check (runes_of_ascii "packet A {
+  match k as n {
+    [1, 22, 007, 4, 5, 66, 7, 8, 9, 10] : B,
+    2 : C
+  },
+}")).
+Eval vm_compute in ("<<<M829>>>" ++ check (runes_of_ascii "packet A {
+  match k as n {
+    [""a"", ""bb"", ""c c"", ""d"", ""e"", ""f""] : B
+    2 : C
+  },
+}")).
+Eval vm_compute in ("<<<M844>>>" ++ check (runes_of_ascii "packet A {
+  match k as n {
+    [1, ""bb"", 007, ""d"", 5, ""f"", 7] : B
+    2 : C
+  },
+}")).
+Eval vm_compute in ("<<<M916>>>" ++ check (runes_of_ascii "packet A { Inner { match k as n { [1,22,007,4,5,66,7,8,9,10,11,12] : B, }, }, }")).
+Eval vm_compute in ("<<<M818>>>" ++ check (runes_of_ascii "packet A {
+  match k as n {
+    [1, ""bb"", 007, ""d"", 5] : B
+    2 : C
+  },
+}")).
+Eval vm_compute in ("<<<M1606>>>" ++ check (runes_of_ascii "MetaData x_y_z {
+    i8i8 u8x,
+    string uint8x `crlf
+        line`,
+}")).
+Eval vm_compute in ("<<<M792>>>" ++ check (runes_of_ascii "packet A {
+  match k as n {
+    [1, ""bb"", 007] : B
+    2 : C
+  },
+}")).
+Eval vm_compute in ("<<<M1497>>>" ++ check (runes_of_ascii "// a // b
+packet Pad {
+    char[] Z9_ @lengthOf(Pad) `{ , }`,
+}")).
+Eval vm_compute in ("<<<M1255>>>" ++ check (runes_of_ascii "root packet P {
+    hdr {
+        u8 a,
+    },
+    u8 x,
+}
+")).
+Eval vm_compute in ("<<<M1833>>>" ++ check (runes_of_ascii "options {
+    Logon = """ ++ [28040; 24687]%N ++ runes_of_ascii """;
+    BodyLength = false;
+}")).
+Eval vm_compute in ("<<<M777>>>" ++ check (runes_of_ascii "packet A { Inner { match k as n { [1] : B, }, }, }")).
+Eval vm_compute in ("<<<M1221>>>" ++ check (runes_of_ascii "// top
+packet // c0
+x // c1
+{ // c2
+} // c3
+")).
+Eval vm_compute in ("<<<M1578>>>" ++ check (runes_of_ascii "  packet
+	A 
+{ u8 x `d" ++ [65279]%N ++ runes_of_ascii "`
+	, 	 // c" ++ [65279]%N ++ runes_of_ascii "
+		}")).
+Eval vm_compute in ("<<<M1882>>>" ++ check (runes_of_ascii "root packet A {
+    u8 x `
+    `,
+}")).
+Eval vm_compute in ("<<<M1664>>>" ++ check (runes_of_ascii "root packet P {
+    string s,
+}")).
+Eval vm_compute in ("<<<M83>>>" ++ check (runes_of_ascii "
+options{ options1 =	7 ;
+}
+")).
+Eval vm_compute in ("<<<M1846>>>" ++ check (runes_of_ascii "packet A {
+}// a// b// c")).
+Eval vm_compute in ("<<<M1106>>>" ++ check (runes_of_ascii "MetaData
+// c
+tag { }")).
+Eval vm_compute in ("<<<M1548>>>" ++ check (runes_of_ascii "// c
+MetaData u {
+}")).
+Eval vm_compute in ("<<<M1037>>>" ++ check (runes_of_ascii "// c" ++ [12]%N ++ runes_of_ascii "
+packet A {
+}")).
+Eval vm_compute in ("<<<M1029>>>" ++ check (runes_of_ascii "packet A {
+}// c" ++ [11]%N)).
+Eval vm_compute in ("<<<M1804>>>" ++ check (runes_of_ascii "MetaData u {
+}")).
 Eval vm_compute in ("<<<M758>>>" ++ check (runes_of_ascii "LE]u'")).
-Eval vm_compute in ("<<<M745>>>" ++ check ([65533]%N ++ runes_of_ascii "1")).
+Eval vm_compute in ("<<<M728>>>" ++ check (runes_of_ascii "		")).
